@@ -452,6 +452,18 @@ type env struct {
 	reg  *registry
 	P    int
 	lims [3]int // attribute / event / link count limits (-1 unlimited)
+	late *recProc // processor P-1, registered only AFTER the tracked spans were started: must still get their OnEnd
+	gone *recProc // an extra processor (index P) registered at Start and unregistered before any End: must get nothing
+}
+
+// afterStart: called once the tracked spans exist (and before any of them is ended).
+func (e *env) afterStart() {
+	if e.late != nil {
+		e.tp.RegisterSpanProcessor(e.late)
+	}
+	if e.gone != nil {
+		e.tp.UnregisterSpanProcessor(e.gone)
+	}
 }
 
 var unlimited = [3]int{-1, -1, -1}
@@ -488,11 +500,24 @@ func newEnvLim(P int, lims [3]int) *env {
 		sdktrace.WithRawSpanLimits(sdktrace.SpanLimits{AttributeValueLengthLimit: -1, AttributeCountLimit: lims[0], EventCountLimit: lims[1],
 			LinkCountLimit: lims[2], AttributePerEventCountLimit: -1, AttributePerLinkCountLimit: -1}),
 	}
+	// "registered processors" = those registered when the span ENDS: in every other environment the last
+	// processor joins after the spans were started and an extra one leaves before they end
+	var late, gone *recProc
+	churn := P >= 1 && envCount.Load()%4 < 2
 	for i := 0; i < P; i++ {
-		opts = append(opts, sdktrace.WithSpanProcessor(&recProc{idx: i, reg: reg}))
+		rp := &recProc{idx: i, reg: reg}
+		if churn && i == P-1 {
+			late = rp
+			continue
+		}
+		opts = append(opts, sdktrace.WithSpanProcessor(rp))
+	}
+	if churn {
+		gone = &recProc{idx: P, reg: reg}
+		opts = append(opts, sdktrace.WithSpanProcessor(gone))
 	}
 	tp := sdktrace.NewTracerProvider(opts...)
-	return &env{tp: tp, tr: tp.Tracer("c10"), reg: reg, P: P, lims: lims}
+	return &env{tp: tp, tr: tp.Tracer("c10"), reg: reg, P: P, lims: lims, late: late, gone: gone}
 }
 
 // startSpan starts a tracked root span.
@@ -1000,6 +1025,118 @@ func dropStorm(w *vgen.Writer, n int) int {
 	return anomalies
 }
 
+// contentView: everything a retained snapshot shows, as one string (event names and times, link attributes,
+// attributes, dropped counts, end time, name, status, child count).
+func contentView(s sdktrace.ReadOnlySpan) string {
+	var b strings.Builder
+	for _, e := range s.Events() {
+		fmt.Fprintf(&b, "E%s@%d%v;", e.Name, e.Time.UnixNano(), e.Attributes)
+	}
+	for _, l := range s.Links() {
+		fmt.Fprintf(&b, "L%v;", l.Attributes)
+	}
+	for _, kv := range s.Attributes() {
+		fmt.Fprintf(&b, "A%s=%v;", kv.Key, kv.Value.AsInterface())
+	}
+	fmt.Fprintf(&b, "D%d/%d/%d;T%d;N%s;S%v;C%d", s.DroppedAttributes(), s.DroppedEvents(), s.DroppedLinks(), s.EndTime().UnixNano(), s.Name(), s.Status(), s.ChildSpanCount())
+	return b.String()
+}
+
+type keepProc struct {
+	mu    sync.Mutex
+	snaps []sdktrace.ReadOnlySpan
+	seen  []string
+}
+
+func (p *keepProc) OnStart(context.Context, sdktrace.ReadWriteSpan) {}
+func (p *keepProc) OnEnd(s sdktrace.ReadOnlySpan) {
+	v := contentView(s)
+	p.mu.Lock()
+	p.snaps = append(p.snaps, s)
+	p.seen = append(p.seen, v)
+	p.mu.Unlock()
+}
+func (p *keepProc) Shutdown(context.Context) error   { return nil }
+func (p *keepProc) ForceFlush(context.Context) error { return nil }
+
+// evictStorm: spans whose event and link queues are exactly at their limits (EventCountLimit = LinkCountLimit = 2,
+// two of each recorded); per span, released together by a rendezvous, one goroutine calls AddEvent + AddLink +
+// SetAttributes (each would evict / append) while the other Ends the span. Every snapshot handed to OnEnd is
+// retained and read again after the whole batch: it must show exactly what it showed inside OnEnd, and each
+// span is delivered exactly once.
+func evictStorm(w *vgen.Writer, n int) int {
+	anomalies := 0
+	const batch = 10000
+	for done := 0; done < n && !stuck.Load(); done += batch {
+		m := min(batch, n-done)
+		desc := map[string]any{"fragment": "evict-storm", "spans": m}
+		watchdog(w, "evict storm", desc, 30*time.Second, func(w *proxy) {
+			kp := &keepProc{}
+			tp := sdktrace.NewTracerProvider(sdktrace.WithSpanProcessor(kp),
+				sdktrace.WithRawSpanLimits(sdktrace.SpanLimits{AttributeValueLengthLimit: -1, AttributeCountLimit: 2, EventCountLimit: 2, LinkCountLimit: 2, AttributePerEventCountLimit: -1, AttributePerLinkCountLimit: -1}))
+			tr := tp.Tracer("c10")
+			spans := make([]trace.Span, m)
+			for i := range spans {
+				_, spans[i] = tr.Start(context.Background(), "root", trace.WithNewRoot())
+				spans[i].AddEvent("e0")
+				spans[i].AddEvent("e1")
+				spans[i].AddLink(trace.Link{SpanContext: linkSC, Attributes: []attribute.KeyValue{attribute.Int("l", 0)}})
+				spans[i].AddLink(trace.Link{SpanContext: linkSC, Attributes: []attribute.KeyValue{attribute.Int("l", 1)}})
+				spans[i].SetAttributes(attribute.Int("a", 0), attribute.Int("b", 0))
+			}
+			var at [2]atomic.Int64
+			var wg sync.WaitGroup
+			for g := 0; g < 2; g++ {
+				wg.Add(1)
+				go func(g int) {
+					defer wg.Done()
+					for i := 0; i < m; i++ {
+						at[g].Store(int64(i + 1))
+						for k := 0; at[1-g].Load() < int64(i+1); k++ {
+							if k&63 == 63 {
+								runtime.Gosched()
+							}
+						}
+						if (g == 0) == (i&1 == 0) {
+							switch i % 3 {
+							case 0:
+								spans[i].AddEvent("late")
+							case 1:
+								spans[i].AddLink(trace.Link{SpanContext: linkSC, Attributes: []attribute.KeyValue{attribute.Int("l", 9)}})
+							default:
+								spans[i].RecordError(errors.New("late"))
+							}
+							spans[i].AddEvent("late2")
+							spans[i].AddLink(trace.Link{SpanContext: linkSC, Attributes: []attribute.KeyValue{attribute.Int("l", 8)}})
+							spans[i].SetAttributes(attribute.Int("a", 7), attribute.Int("c", 7))
+						} else {
+							spans[i].End()
+						}
+					}
+				}(g)
+			}
+			wg.Wait()
+			changed := 0
+			for i, sn := range kp.snaps {
+				if now := contentView(sn); now != kp.seen[i] {
+					changed++
+					if changed == 1 {
+						w.Violation("a snapshot delivered to OnEnd changed afterwards (AddEvent / AddLink / SetAttributes racing End on a span whose queues are at their limits)",
+							map[string]any{"fragment": "evict-storm", "read_inside_OnEnd": kp.seen[i], "read_after_the_storm": now})
+					}
+				}
+			}
+			if len(kp.snaps) != m {
+				w.Violation(fmt.Sprintf("evict storm: %d spans ended, %d OnEnd deliveries", m, len(kp.snaps)), desc)
+				changed++
+			}
+			anomalies += changed
+			w.Tally("evict-storm:batch")
+		})
+	}
+	return anomalies
+}
+
 // ---- generators ----
 
 func genOp(r *vgen.Rand, endWeight int) op {
@@ -1185,6 +1322,7 @@ func seqCase(w *vgen.Writer, r *vgen.Rand, tracing bool, P int, ops []op, kind s
 	watchdog(w, "sequential program", desc, 20*time.Second, func(w *proxy) {
 		e := newEnvLim(P, lims)
 		sp, st := e.startSpan()
+		e.afterStart()
 		var calls []rec
 		for i, o := range ops {
 			calls = append(calls, issue1(e.tr, sp, i, o, nil)...)
@@ -1261,6 +1399,7 @@ func raceCase(w *vgen.Writer, r *vgen.Rand, tracing bool, kind string, storm boo
 		for i := range spans {
 			spans[i], tracks[i] = e.startSpan()
 		}
+		e.afterStart()
 		calls := make([][][]rec, G) // per goroutine, per span
 		var start atomic.Bool
 		var wg sync.WaitGroup
@@ -1356,6 +1495,7 @@ func stormLoop(w *vgen.Writer, r *vgen.Rand, tracing bool, trials int, kind stri
 			for i := range spans {
 				spans[i], tracks[i] = e.startSpan()
 			}
+			e.afterStart()
 			ops := make([][]op, G)
 			for g := range ops {
 				ops[g] = make([]op, n)
@@ -1559,6 +1699,8 @@ func main() {
 		t0 := time.Now()
 		nStatus := o.Count(300000, 3000000)
 		sa := statusStorm(w, nStatus)
+		nev := o.Count(100000, 1000000)
+		w.Extra["evict_storm"] = fmt.Sprintf("%d spans with full event/link queues, AddEvent/AddLink/SetAttributes racing End, retained snapshots re-read: %d anomalies", nev, evictStorm(w, nev))
 		ndr := o.Count(4000, 40000)
 		w.Extra["drop_storm"] = fmt.Sprintf("%d spans, SetAttributes over the limit racing End under a slow logger, %d anomalies", ndr, dropStorm(w, ndr))
 		nd := o.Count(100000, 1000000)
